@@ -848,6 +848,8 @@ class Variable(CanBehaveLikeAVariable[T]):
 
     def _reset_only_my_cache_(self) -> None:
         super()._reset_only_my_cache_()
+        # an evaluation that was abandoned (neither exhausted nor closed) may have left it set.
+        self._evaluating_kwargs_expression_ = False
         if self._domain_is_the_registry_:
             # the registry is live, it is read again by the next evaluation (the flag stays, the operators above this
             # variable look at it when they are reset, in whatever order the nodes are visited).
@@ -916,14 +918,17 @@ class Variable(CanBehaveLikeAVariable[T]):
 
     def _evaluate_kwargs_expression_(self, sources: Optional[Dict[int, HashedValue]] = None):
         self._evaluating_kwargs_expression_ = True
-        for v in self._kwargs_expression_._evaluate__(sources, yield_when_false=self._yield_when_false_):
-            if self is self._conditions_root_ or isinstance(self._parent_, LogicalOperator):
-                self._is_false_ = self._kwargs_expression_._is_false_
-                if not self._is_false_ or self._yield_when_false_:
+        try:
+            for v in self._kwargs_expression_._evaluate__(sources, yield_when_false=self._yield_when_false_):
+                if self is self._conditions_root_ or isinstance(self._parent_, LogicalOperator):
+                    self._is_false_ = self._kwargs_expression_._is_false_
+                    if not self._is_false_ or self._yield_when_false_:
+                        yield v
+                else:
                     yield v
-            else:
-                yield v
-        self._evaluating_kwargs_expression_ = False
+        finally:
+            # also when the evaluation is closed early or aborted by an exception.
+            self._evaluating_kwargs_expression_ = False
 
     def _update_domain_and_kwargs_expression_(self):
         self._domain_source_ = From(self._cache_values_)
